@@ -66,14 +66,14 @@ class C08(E1Check):
 
     def units(self, tier: str, seed: int) -> list:
         svcs = [f"S:{a}:{b}" for a in ACTIONS for b in BODIES if valid(a, b)]
-        items = ["R", "T", "TXE", "TXB"] + svcs
+        items = ["R", "T", "TXE", "TXB", "SW"] + svcs
         progs = []
         maxn = 3 if tier == "quick" else 4
         for owner in ("root", "nested"):
             for n in range(1, maxn + 1):
                 for seq in itertools.product(items, repeat=n):
                     ns = sum(1 for x in seq if x.startswith("S"))
-                    if ns == 0 or ns > 2:
+                    if ns == 0 or ns > 2 or (sum(1 for x in seq if x == "SW") > 1):
                         continue
                     nx = sum(1 for x in seq if x.startswith("TX"))
                     if nx > 1 or (nx and (n == maxn and ns == 2)):
@@ -85,8 +85,9 @@ class C08(E1Check):
                         if a.split(":")[1] not in ("cancel", "sync") or b.split(":")[1] not in ("cancel", "async-raise"):
                             continue
                     progs.append({"owner": owner, "seq": list(seq)})
-                    if n <= 2 and ns == 1:
+                    if n <= 2 and ns == 1 and "SW" not in seq:
                         progs.append({"owner": owner, "seq": list(seq), "inner": True})
+                        progs.append({"owner": owner, "seq": list(seq), "component": True})
         return progs
 
     def bound(self, tier: str, program: Any) -> int:
@@ -208,6 +209,36 @@ class C08(E1Check):
 
                         ctx.add_teardown_callback(raiser)
                         log("reg", lbl, item)
+                    elif item == "SW":
+                        # a service task that registers a teardown callback on its owner while it is still starting
+                        async def sw(*, task_status: Any, l: str = lbl) -> None:
+                            log("svc+", l, (), ())
+                            ctx.add_teardown_callback(lambda: log("td", l + "w"))
+                            current_context().add_teardown_callback(lambda: log("svc-td", l))
+                            task_status.started()
+                            try:
+                                await anyio.Event().wait()
+                            except BaseException as e:
+                                log("svc!", l, type(e).__name__)
+                                raise
+                            finally:
+                                log("svc-", l)
+
+                        await ctx.start_service_task(sw, "svc" + lbl)
+                        log("reg", lbl, "SW")
+                    elif program.get("component"):
+                        # the same registration made from a component's start() through the module-level shortcut
+                        from asphalt.core import Component, start_component, start_service_task
+
+                        _, action, body = item.split(":")
+                        service, ta = make_service(lbl, action, body)
+
+                        class Comp(Component):
+                            async def start(self) -> None:
+                                await start_service_task(service, "svc" + lbl, teardown_action=ta)
+
+                        await start_component(Comp, {}, timeout=None)
+                        log("reg", lbl, "S")
                     else:
                         _, action, body = item.split(":")
                         service, ta = make_service(lbl, action, body)
@@ -281,6 +312,12 @@ class C08(E1Check):
             if late2:
                 fail("still-running", f"service task events after the owning context's block had been left: {late2[:4]}")
         for i, item in enumerate(seq):
+            if item == "SW":
+                tw = next((j for j, ev in enumerate(tr) if ev[0] == "td" and ev[1] == f"{i}w"), None)
+                se = next((j for j, ev in enumerate(tr) if ev[0] == "svc-" and ev[1] == str(i)), None)
+                if tw is None or se is None or tw < se:
+                    fail("order", f"the teardown callback registered while service task {i} was starting ran at {tw}, the task ended at {se}")
+                continue
             if not item.startswith("S"):
                 continue
             lbl = str(i)
@@ -300,7 +337,7 @@ class C08(E1Check):
                 continue
             # callbacks registered before the task was started run only after the task and its context finished
             for k in range(i):
-                if seq[k] in ("R", "T", "TXE", "TXB"):
+                if seq[k] in ("R", "T", "TXE", "TXB") :
                     t = next((j for j, ev in enumerate(tr) if ev[0] == "td" and ev[1] == str(k)), None)
                     if t is None:
                         fail("teardown-missing", f"teardown callback {k} never ran")
